@@ -72,10 +72,14 @@ type vLoop struct {
 	storeFails int
 	kinds      int
 	twoRemotes bool
-	opp        int // commit opportunities seen so far
-	shardFirst int // > 0: number of shards over the first commit's opportunity
+	localTS0   uint64 // native: timestamp of the initial local entry
+	opp        int    // commit opportunities seen so far
+	shardFirst int    // > 0: number of shards over the first commit's opportunity
 	firstAt    int
 }
+
+// vLoopRemoteDel: the remote version of key "a" is a deletion marker (set by the stale-marker jobs).
+var vLoopRemoteDel bool
 
 func vRemoteSnapshot(ts uint64, val []byte) []byte {
 	snap := &snapshot.Snapshot{FormatVersion: 3, CompatVersion: 1}
@@ -83,7 +87,11 @@ func vRemoteSnapshot(ts uint64, val []byte) []byte {
 	snap.Meta.DatabaseName = "db"
 	d := snapshot.NewDBISize(64)
 	d.SetName("d")
-	d.Append(snapshot.KV{Key: []byte("a"), Value: val, TimestampNano: ts})
+	if vLoopRemoteDel {
+		d.Append(snapshot.KV{Key: []byte("a"), TimestampNano: ts, Flags: 1})
+	} else {
+		d.Append(snapshot.KV{Key: []byte("a"), Value: val, TimestampNano: ts})
+	}
 	snap.Databases = append(snap.Databases, d)
 	blob, _, err := snapshot.DumpData(snap)
 	if err != nil {
@@ -267,6 +275,7 @@ func vRunLoopOpt2(native, receiveOnly, twoRemotes bool, maxIter, commitIter, max
 	ts0 := zz.NondetU64("local.ts")
 	zz.Assume(ts0 > 0)
 	l.localTS = ts0
+	l.localTS0 = ts0
 	err := l.env.Update(func(txn *lmdb.Txn) error {
 		dbi, err := txn.OpenDBI("d", lmdb.Create)
 		if err != nil {
@@ -293,6 +302,11 @@ func vRunLoopOpt2(native, receiveOnly, twoRemotes bool, maxIter, commitIter, max
 		c.MemoryDecompressedSnapshots = 3
 		c.MemoryDownloadedSnapshots = 3
 		opt.ReceiveOnly = receiveOnly
+		if vLoopRemoteDel {
+			// sweeper enabled (retention 2 days; the marker's age is arbitrary): remote markers older
+			// than the load cutoff are "stale" (its goroutine, natively, sleeps for the whole run)
+			c.Sweeper = config.Sweeper{Enabled: true, RetentionDays: 2, Interval: time.Hour, FirstInterval: time.Hour}
+		}
 	})
 	l.r = receiver.New(l.st, l.s.c, "db", l.s.l, "inst", l.s.events, l.s.hooks)
 	l.r.VerifPrepare("other", "inst", "third")
@@ -349,11 +363,17 @@ func (l *vLoop) checkNotDestroyed(tag0 string) {
 			cts, cdel, cval := vLogical(cur)
 			own := zz.And(cts == w.ts, zz.And(cdel == w.del, zz.Or(w.del, bytes.Equal(cval, w.val))))
 			superseded := zz.And(remoteHasKey, zz.And(l.remoteTS >= w.ts, zz.And(cts == l.remoteTS, bytes.Equal(cval, l.remoteVal))))
+			if vLoopRemoteDel {
+				superseded = zz.And(remoteHasKey, zz.And(l.remoteTS >= w.ts, zz.And(cts == l.remoteTS, cdel)))
+			}
 			zz.Assert(zz.Or(own, superseded), "C03/"+tag+"/native/write-kept-unless-superseded")
 			continue
 		}
 		// shadow mode: the write is stamped at detection, which is not before the commit
 		superseded := zz.And(remoteHasKey, zz.And(l.remoteTS >= uint64(w.tclock), zz.And(has, bytes.Equal(cur, l.remoteVal))))
+		if vLoopRemoteDel {
+			superseded = zz.And(remoteHasKey, zz.And(l.remoteTS >= uint64(w.tclock), !has))
+		}
 		if w.del {
 			zz.Assert(zz.Or(!has, superseded), "C03/"+tag+"/shadow/delete-kept-unless-superseded")
 		} else if len(w.val) == 0 {
@@ -500,3 +520,36 @@ func verifLoopDelete(native bool) {
 
 func VerifLoopDeleteNative() { verifLoopDelete(true) }
 func VerifLoopDeleteShadow() { verifLoopDelete(false) }
+
+// VerifLoopStaleMarkerNative / Shadow: the tomb sweeper is enabled (retention 2 days)
+// and the other instance's version of the key is a deletion marker of arbitrary age (possibly
+// older than the load cutoff, i.e. "stale"); one application overwrite or insert at any yield
+// point. A stale marker never destroys a newer local write: last-writer-wins still decides.
+func verifLoopStaleMarker(native bool) {
+	vLoopRemoteDel = true
+	l := vRunLoop(native, 4, 2, 1, 2, []int{2}, 0)
+	vLoopRemoteDel = false
+	if l == nil {
+		return
+	}
+	vLoopRemoteDel = true
+	l.checkNotDestroyed("loop")
+	vLoopRemoteDel = false
+	if len(l.writes) == 0 {
+		// no application commit: the initial local entry (timestamp local.ts in native mode) is
+		// an earlier committed write; it stays unless the marker is newer
+		app, _ := zz.Dump(l.env, "d")
+		cur := vFind(app, []byte("a"))
+		if native {
+			zz.Assert(cur != nil, "C03/stalemarker/native/initial-entry-or-marker-present")
+			if cur != nil {
+				cts, cdel, _ := vLogical(cur)
+				zz.Assert(zz.Or(zz.And(cts == l.localTS0, !cdel), zz.And(l.remoteTS >= l.localTS0, zz.And(cts == l.remoteTS, cdel))), "C03/stalemarker/native/initial-entry-kept-unless-marker-newer")
+			}
+		}
+	}
+	zz.Reach("C03/stalemarker/done")
+}
+
+func VerifLoopStaleMarkerNative() { verifLoopStaleMarker(true) }
+func VerifLoopStaleMarkerShadow() { verifLoopStaleMarker(false) }
